@@ -993,6 +993,10 @@ impl Walrus {
         let mut final_tail_offset = 0u64;
         let mut entries_parsed = 0u32;
         let mut saw_tail = false;
+        // Set when a range ended before its block's data did (budget spent, or the
+        // planned bytes cut an entry short): later ranges must not be parsed, or the
+        // entries in between would be skipped.
+        let mut stop_all = false;
 
         for (plan_idx, read_plan) in plan.iter().enumerate() {
             if entries.len() >= MAX_BATCH_ENTRIES {
@@ -1007,6 +1011,7 @@ impl Walrus {
                 }
                 // Try to read metadata header
                 if buf_offset + PREFIX_META_SIZE > buffer.len() {
+                    stop_all = true;
                     break; // Not enough data for header
                 }
 
@@ -1035,6 +1040,7 @@ impl Walrus {
 
                 // Check if we have enough buffer space for the data
                 if buf_offset + entry_consumed > buffer.len() {
+                    stop_all = true;
                     break; // Incomplete entry
                 }
 
@@ -1043,6 +1049,7 @@ impl Walrus {
                     .checked_add(data_size)
                     .unwrap_or(usize::MAX);
                 if next_total > max_bytes && !entries.is_empty() {
+                    stop_all = true;
                     break;
                 }
 
@@ -1103,6 +1110,11 @@ impl Walrus {
                 }
 
                 buf_offset += entry_consumed;
+            }
+            // A sealed range that was planned only up to the byte budget leaves unread
+            // entries behind it in the same block.
+            if stop_all || (!read_plan.is_tail && read_plan.end < read_plan.blk.used) {
+                break;
             }
         }
 
